@@ -279,7 +279,7 @@ def run(ctx):
     jobs = []
     t0 = time.time()
     collect(ctx, vh, jobs, "b64", ["-n", 150 if q else 6000], shard=350 if q else 1000)
-    collect(ctx, vh, jobs, "pkt", ["-n", 60 if q else 3000] + ([] if q else ["-thorough"]), shard=40 if q else 400)
+    collect(ctx, vh, jobs, "pkt", ["-n", 60 if q else 3000] + ([] if q else ["-thorough"]), shard=40 if q else 100)
     collect(ctx, vh, jobs, "dec", ["-n", 300 if q else 12000, "-ex", 3 if q else 5], shard=600 if q else 2500)
     collect(ctx, vh, jobs, "pay", ["-n", 60 if q else 3000], shard=31 if q else 400)
     collect(ctx, vh, jobs, "paydec", ["-n", 150 if q else 6000], shard=200 if q else 1000)
@@ -295,7 +295,7 @@ def run(ctx):
     else:
         collect(ctx, vh, jobs, "wtlen", ["-lo", 0, "-hi", 70000, "-stride", 1], shard=5000, label="wtlen-all")
         collect(ctx, vh, jobs, "wtlen", ["-growth", "-thorough", "-hi", 4300000], shard=8, label="wtlen-growth")
-        collect(ctx, vh, jobs, "wtlen", ["-lo", 70001, "-hi", 2200000, "-stride", 4093], shard=12, label="wtlen-sweep")
+        collect(ctx, vh, jobs, "wtlen", ["-lo", 70001, "-hi", 2200000, "-stride", 8191], shard=8, label="wtlen-sweep")
     t1 = time.time()
     evaluate(ctx, jobs)
     ctx.note("harness %.1fs, kernel evaluation of %d cases in %.1fs" % (t1 - t0, sum(len(j["rows"]) for j in jobs), time.time() - t1))
